@@ -361,8 +361,16 @@ class BaseRunner(ABC, Generic[_Request]):
             # have all started to be handled before we proceed to close idle connections.
             await asyncio.sleep(0)
             self._server.pre_shutdown()
-            await self.shutdown()
-            await self._server.shutdown(self._shutdown_timeout)
+            try:
+                try:
+                    await self.shutdown()
+                finally:
+                    # A failing on_shutdown handler must not leave connections
+                    # open nor skip the application's cleanup.
+                    await self._server.shutdown(self._shutdown_timeout)
+            except BaseException:
+                await self._cleanup_server()
+                raise
         await self._cleanup_server()
 
         self._server = None
